@@ -1,0 +1,47 @@
+//go:build verif
+
+// Contracts for the deductive verification of moss (see /verif/DESIGN.md).
+// This file contains comments only; it is compiled only with -tags verif.
+// Syntax: Gobra-style blocks in //@ comments, keyed by function.
+
+package moss
+
+// ---- op word (C19) ---------------------------------------------------------
+
+//@ pure func opOf(w uint64) uint64 = ((w / 72057594037927936) % 16) * 72057594037927936
+//@ pure func klOf(w uint64) int = (w / 4294967296) % 16777216
+//@ pure func vlOf(w uint64) int = w % 268435456
+
+//@ func encodeOpKeyLenValLen(operation uint64, keyLen, valLen int) uint64
+//@   props C19
+//@   requires 0 <= keyLen && keyLen <= maxKeyLength && 0 <= valLen && valLen <= maxValLength
+//@   ensures @roundtrip opOf(result) == opOf(operation) && klOf(result) == keyLen && vlOf(result) == valLen
+//@   ensures @reserved (result / 1152921504606846976) % 16 == 0 && (result / 268435456) % 16 == 0
+
+//@ func decodeOpKeyLenValLen(opklvl uint64) (uint64, int, int)
+//@   props C19
+//@   ensures @fields r0 == opOf(opklvl) && r1 == klOf(opklvl) && r2 == vlOf(opklvl)
+//@   ensures @ranges 0 <= r1 && r1 <= maxKeyLength && 0 <= r2 && r2 <= maxValLength
+
+// ---- page arithmetic (C04, C05) ----------------------------------------------
+
+//@ func pageAlignCeil(pos int64) int64
+//@   props C04 C05
+//@   overflow check
+//@   requires 0 <= pos && pos <= 4611686018427387904 && StorePageSize > 0 && StorePageSize <= 1073741824
+//@   ensures @aligned result % StorePageSize == 0
+//@   ensures @least pos <= result && result < pos + StorePageSize
+
+//@ func pageAlignFloor(pos int64) int64
+//@   props C04 C05
+//@   overflow check
+//@   requires 0 <= pos && StorePageSize > 0
+//@   ensures @aligned result % StorePageSize == 0
+//@   ensures @greatest result <= pos && pos < result + StorePageSize
+
+//@ func pageOffset(pos, pageSize int64) int64
+//@   props C04
+//@   overflow check
+//@   requires 0 <= pos && pageSize > 0
+//@   ensures @aligned result % pageSize == 0
+//@   ensures @greatest result <= pos && pos < result + pageSize
